@@ -379,7 +379,11 @@ func runBehaviour(t *testing.T, b Behaviour, w *bufio.Writer) {
 		r.tr.Emit("End", vtrace.Ev{"hung": hung, "now": r.now(), "open": open, "steps": r.steps,
 			"state": append([]string{}, r.s.Describe()...), "budget": r.steps >= r.maxStep})
 		if stuck := r.s.Shutdown(); len(stuck) > 0 {
-			t.Fatalf("behaviour %d: goroutines that cannot be freed: %v", b.ID, stuck)
+			// blocked in code the scheduler cannot abort: the bubble can never end. The trace
+			// is complete (End lists the hung calls); the driver restarts us on the rest.
+			w.Flush()
+			fmt.Fprintf(os.Stderr, "behaviour %d: goroutines that cannot be freed: %v\n", b.ID, stuck)
+			os.Exit(3)
 		}
 	})
 }
